@@ -62,7 +62,8 @@ const tokChars = "abcdefghijklmnopqrstuvwxyzABCDEFGHIJKLMNOPQRSTUVWXYZ0123456789
 // needleSizes: lengths and counts around the thresholds that fixed-size scratch buffers, narrow counters and "fast paths
 // for long tokens" typically use. A violation confined to "the 33rd parameter" or "a token of 256+ bytes" is invisible to
 // uniformly small inputs, so every generator occasionally stretches one element to one of these sizes.
-var needleSizes = []int{15, 16, 17, 31, 32, 33, 63, 64, 65, 66, 100, 127, 128, 129, 130, 200, 255, 256, 257, 258, 300, 511, 512, 513, 1000}
+var needleSizes = []int{15, 16, 17, 20, 24, 31, 32, 33, 40, 48, 50, 63, 64, 65, 66, 96, 100, 127, 128, 129, 130, 192, 200, 255, 256, 257, 258, 300, 384,
+	511, 512, 513, 768, 1000, 1023, 1024, 1025, 2048, 4095, 4096, 4097}
 
 // longN draws one needle size.
 func longN(t *rapid.T, label string) int { return needleSizes[uniformIdx(t, label, len(needleSizes))] }
@@ -93,7 +94,7 @@ func genFromExact(t *rapid.T, label, alphabet string, n int) B {
 }
 
 // needleCounts: item counts around the capacities of fixed arrays and narrow counters.
-var needleCounts = []int{9, 10, 11, 16, 17, 18, 32, 33, 34, 64, 65, 66, 75, 100, 101, 102, 255, 256, 257, 300}
+var needleCounts = []int{9, 10, 11, 12, 13, 16, 17, 18, 20, 24, 31, 32, 33, 34, 48, 50, 63, 64, 65, 66, 75, 100, 101, 102, 127, 128, 129, 200, 255, 256, 257, 300}
 
 // manyN draws a needle count not above limit (limit <= 0: no limit).
 func manyN(t *rapid.T, label string, limit int) int {
